@@ -25,6 +25,7 @@ type LoopSpec struct {
 	N       int
 	As      string // name bound to the hidden index
 	Visited string // name bound to the visited set (map ranges)
+	Over    string // name bound to the value of the range expression
 	Invs    []*Clause
 	Writes  []*Clause
 	HasW    bool
@@ -93,6 +94,7 @@ type GhostDecl struct {
 type Contracts struct {
 	Bounded   []*BoundedCheck
 	Guarded   map[string]string // "Struct.field" -> mutex field
+	Deps      map[string][]string // property -> properties whose clauses it may rely on (`depends Cxx: Cyy ...`)
 	Monitors  map[string][]*GlobalFact // "Struct.mu" -> invariants over `self`, assumed at acquire, proved at release
 	Ghosts    map[string]*GhostDecl
 	Funcs     map[string]*FuncSpec // key: pkg + "::" + Key
@@ -104,7 +106,7 @@ type Contracts struct {
 }
 
 func NewContracts() *Contracts {
-	return &Contracts{Monitors: map[string][]*GlobalFact{}, Guarded: map[string]string{}, Ghosts: map[string]*GhostDecl{}, Funcs: map[string]*FuncSpec{}, Defines: map[string]*Define{}, Abstracts: map[string]*Abstract{}, Immutable: map[string]bool{}}
+	return &Contracts{Deps: map[string][]string{}, Monitors: map[string][]*GlobalFact{}, Guarded: map[string]string{}, Ghosts: map[string]*GhostDecl{}, Funcs: map[string]*FuncSpec{}, Defines: map[string]*Define{}, Abstracts: map[string]*Abstract{}, Immutable: map[string]bool{}}
 }
 
 var reProps = regexp.MustCompile(`^\[([A-Za-z0-9, ]+)\]`)
@@ -381,6 +383,18 @@ func (c *Contracts) Load(path string, defaultPkg string) error {
 			a.Pkg, a.Where = pkg, where
 			c.Abstracts[a.Name] = a
 			cur = nil
+		case "depends":
+			// depends Cxx: Cyy Czz — when checking Cxx, clauses tagged only with other properties are ignored
+			// unless those properties are listed here
+			name, body, ok := strings.Cut(rest, ":")
+			if !ok {
+				return fail(fmt.Errorf("expected 'depends Cxx: Cyy ...'"))
+			}
+			if c.Deps[strings.TrimSpace(name)] == nil {
+				c.Deps[strings.TrimSpace(name)] = []string{}
+			}
+			c.Deps[strings.TrimSpace(name)] = append(c.Deps[strings.TrimSpace(name)], strings.Fields(body)...)
+			cur = nil
 		case "monitor":
 			// monitor[Cxx] Struct.mu: invariant(self)
 			props, r2 := takeProps(rest)
@@ -479,6 +493,8 @@ func (c *Contracts) Load(path string, defaultPkg string) error {
 						curLoop.As = fs[j+1]
 					case "visited":
 						curLoop.Visited = fs[j+1]
+					case "over":
+						curLoop.Over = fs[j+1]
 					default:
 						return fail(fmt.Errorf("unknown loop option %q", fs[j]))
 					}
